@@ -666,6 +666,37 @@ class Interp:
             return "pushed"
         return self._finish_call(fr, t, Sym("ret:%s@%s:bb%d" % (t.get("callee_name") or "?", fr.f["key"].split("::")[-1], fr.bb)))
 
+    def call_value(self, fv, args, depth):
+        """apply a function item / closure value to arguments by a nested, single-path interpretation"""
+        if not isinstance(fv, FnVal):
+            return Unknown("call of non-function")
+        cands = [c for c in (self.fx.by_path.get(fv.path) or []) if "{promoted" not in c["key"]]
+        if not cands or depth >= self.max_depth + 6:
+            return Unknown("closure body missing")
+        body = cands[0]
+        a = list(args)
+        if fv.closure:
+            env = Adt(None, None, {str(i): c for i, c in enumerate(fv.captures or [])})
+            a = [env] + a
+        sub = Interp(self.fx, hooks=self.hooks, max_depth=self.max_depth, max_paths=64, max_steps=self.max_steps, inline=self.inline)
+        f0 = Frame(body, a)
+        f0.depth = depth + 1
+        p = Path()
+        p.frames.append(f0)
+        done = []
+        work = [p]
+        while work:
+            q = work.pop()
+            r = sub._run_path(q, work, 0)
+            if r is not None:
+                done.append(r)
+            if len(done) + len(work) > 64:
+                return Unknown("closure forks")
+        done = [d for d in done if not getattr(d, "diverged", None)]
+        if len(done) == 1:
+            return done[0].result
+        return Unknown("closure paths=%d" % len(done))
+
     def _finish_call(self, fr, t, r):
         if r == "diverge":
             return "diverge"
@@ -850,6 +881,50 @@ def std_model(I, p, fr, t, args):
                 incl = d0.path.endswith("RangeInclusive") if d0.path else False
                 return Iter(list(range(s, e + (1 if incl else 0))))
         return Iter(None, sym=d0)
+    if n in ("any", "all", "map", "filter", "position", "find", "for_each", "count", "filter_map") and isinstance(d0, Iter) and d0.items is not None \
+            and (t.get("callee_trait") == "core::iter::traits::iterator::Iterator" or c.startswith("core::iter::")):
+        rest = d0.items[d0.pos:]
+        depth = getattr(fr, "depth", 0)
+        if n == "count":
+            return len(rest)
+        clo = args[1] if len(args) > 1 else None
+        if isinstance(clo, FnVal):
+            def ap(x, byref=False):
+                return I.call_value(clo, [Adt(None, None, {"0": x})] if False else [x], depth)
+            if n in ("any", "all"):
+                res = []
+                for x in rest:
+                    r = ap(x)
+                    if not isinstance(r, bool):
+                        return Unknown("any/all on unknown")
+                    res.append(r)
+                d0.pos = len(d0.items)
+                return any(res) if n == "any" else all(res)
+            if n == "map":
+                return Iter([ap(x) for x in rest])
+            if n == "for_each":
+                for x in rest:
+                    ap(x)
+                return Adt(None, None, {})
+            if n in ("filter", "position", "find"):
+                keep = []
+                for i, x in enumerate(rest):
+                    r = ap(x)
+                    if not isinstance(r, bool):
+                        return Unknown("filter on unknown")
+                    if r:
+                        if n == "position":
+                            return Adt("core::option::Option", "Some", {"0": i})
+                        if n == "find":
+                            return Adt("core::option::Option", "Some", {"0": x})
+                        keep.append(x)
+                if n in ("position", "find"):
+                    return Adt("core::option::Option", "None", {})
+                return Iter(keep)
+    if n == "collect" and isinstance(d0, Iter) and d0.items is not None:
+        dty = fr.f["locals"][t["dest"]["l"]]["ty"]
+        if dty.startswith("std::vec::Vec"):
+            return Vec(d0.items[d0.pos:])
     if n in ("rev",) and isinstance(d0, Iter) and d0.items is not None:
         return Iter(list(reversed(d0.items[d0.pos:])))
     if n in ("enumerate",) and isinstance(d0, Iter) and d0.items is not None:
